@@ -47,23 +47,25 @@ SPEC = {
              "fibers of the same geometry, compressed and 'U'-format ranks, plus a flattened (tuple-"
              "coordinate, list-valued rank id) view; (iii) `img`: TensorImage in styles tree / uncompressed / "
              "tree+uncompressed rendered twice on compressed-format tensors of rank 1-3 with missing, stored-empty "
-             "and all-default rows inside the upper rank's shape (and the root fiber on its own), then with two "
-             "`highlights` configurations (1-4 workers named by strings, integers or tuples of integers - also names "
+             "and all-default rows inside the upper rank's shape (and the root fiber on its own), then with a "
+             "`highlights` argument (1-4 workers named by strings, integers or tuples of integers - also names "
              "whose printed forms coincide -, 0-3 points each: stored leaves, stored sub-tensors, absent points, '?' "
-             "wildcards; argument forms dict / dict of single points / list / single point) each rendered twice "
-             "with equal, freshly built arguments, and the first one once more after the others.  "
+             "wildcards; argument forms dict / dict of single points / list / single point) rendered twice "
+             "with equal, freshly built arguments in one style (all three on the hand-written trees), back to back "
+             "or with one rendering with other highlights in between.  "
              "Non-trivial = the operand stores at least one element and, for `val`, the operation returned and at "
              "least one follow-up mutation was applied on each side; for `ro` at least 40 operations ran; for `img` "
-             "all three styles and every highlight configuration rendered.  distinct = distinct case."),
+             "all three styles and the highlighted renderings done.  distinct = distinct case."),
     "shards": {"quick": 16, "thorough": 16},
     "min_counts": {"quick": {"evaluations": 3000, "oracle_evals": 60000, "val_ops_returned": 2500,
                              "alias_checks": 2500, "followup_result_mutations": 5000,
                              "followup_operand_mutations": 5000, "ro_ops": 40000, "img_renders": 400,
-                             "img_pairs_compared": 150, "img_hl_renders": 400, "img_hl_pairs_compared": 150,
-                             "img_hl_interleaved_compared": 50, "img_hl_visible": 60,
-                             "img_hl_workers[str]": 40, "img_hl_workers[int]": 40, "img_hl_workers[tuple]": 40,
-                             "img_hl_points[stored]": 80, "img_hl_points[partial]": 10,
-                             "img_hl_points[absent]": 25, "img_hl_points[wildcard]": 10,
+                             "img_pairs_compared": 150, "img_hl_renders": 120, "img_hl_pairs_compared": 50,
+                             "img_hl_pairs_compared:back-to-back": 20, "img_hl_pairs_compared:interleaved": 20,
+                             "img_hl_visible": 80,
+                             "img_hl_workers[str]": 40, "img_hl_workers[int]": 30, "img_hl_workers[tuple]": 30,
+                             "img_hl_points[stored]": 80, "img_hl_points[partial]": 25,
+                             "img_hl_points[absent]": 25, "img_hl_points[wildcard]": 20,
                              "ro:Fiber.iterShape[U]": 40,
                              "ro:Fiber.coiterShape[U]": 40, "ro:Format.getFiber[absent]": 100,
                              "ro:Compute.numSwaps": 80, "ro:Fiber.__or__": 300, "ro:Tensor.dump": 100,
@@ -71,10 +73,10 @@ SPEC = {
                              "val:Tensor.unflattenRanks[flattened operand]": 30, "val:deepcopy(Tensor)": 20,
                              "val:Tensor.swizzleRanks": 30, "val:Fiber:fiber+fiber": 40},
                    "thorough": {"evaluations": 20000, "oracle_evals": 600000, "val_ops_returned": 15000,
-                                "ro_ops": 400000, "img_renders": 3000, "img_hl_renders": 5000,
-                                "img_hl_pairs_compared": 2000, "img_hl_visible": 800,
-                                "img_hl_workers[str]": 500, "img_hl_workers[int]": 500,
-                                "img_hl_workers[tuple]": 500}},
+                                "ro_ops": 400000, "img_renders": 3000, "img_hl_renders": 1200,
+                                "img_hl_pairs_compared": 500, "img_hl_visible": 900,
+                                "img_hl_workers[str]": 400, "img_hl_workers[int]": 400,
+                                "img_hl_workers[tuple]": 400}},
     "budget_s": {"quick": 40, "thorough": 520},
     "assumptions": [
         "ordered/unique fibers; integer coordinates (tuple coordinates only as produced by flattenRanks)",
@@ -657,11 +659,11 @@ def generate(rng, tier, shard, nshards, mon):
         idx += 1
         if cfg["own"] == "tensor" and cfg["depth"] <= 3 and "U" not in cfg["fmts"]:
             if idx % nshards == shard:
-                yield {"kind": "img", "cfg": cfg, "sys": True, "hl": _img_highlights(f"sys:{ci}", cfg, 2, False)}
+                yield {"kind": "img", "cfg": cfg, "sys": True, "hl": _img_highlights(f"sys:{ci}", cfg, False)}
             idx += 1
     for k, cfg in enumerate(_img_fixed()):
         if idx % nshards == shard:
-            yield {"kind": "img", "cfg": cfg, "sys": True, "hl": _img_highlights(f"fixed:{k}", cfg, 2, True)}
+            yield {"kind": "img", "cfg": cfg, "sys": True, "hl": _img_highlights(f"fixed:{k}", cfg, True)}
         idx += 1
     mon.exhaustive["fixed-trees-ro+img"] = True
     # (iii) random
@@ -685,7 +687,7 @@ def generate(rng, tier, shard, nshards, mon):
             yield _ro_case(rng, rand_cfg(rng))
         else:
             cfg = _img_cfg(rng)
-            yield {"kind": "img", "cfg": cfg, "hl": _img_highlights(f"rand:{i}", cfg, 2, False)}
+            yield {"kind": "img", "cfg": cfg, "hl": _img_highlights(f"rand:{i}", cfg, False)}
 
 
 def _ro_case(rng, cfg):
@@ -786,10 +788,12 @@ def _point_class(spec, point):
     return "partial" if isinstance(s, list) else "stored"
 
 
-def _img_highlights(seed, cfg, n, all_styles):
-    """n highlight configurations for one image case (own generator: does not disturb the case stream).
-    A configuration = form of the `highlights` argument, the styles it is rendered in, [[worker, [point..]]..]."""
+def _img_highlights(seed, cfg, all_styles):
+    """The highlighted part of one image case (own generator: does not disturb the case stream): the styles to
+    render in and 1 or 2 configurations = form of the `highlights` argument + [[worker, [point..]]..].  The first
+    configuration is rendered twice, the second (if any) once in between."""
     hrng = random.Random(f"hl:{seed}:{cfg['ext']}:{cfg['spec']}")
+    n = hrng.choice([1, 2])
     leaves, inner = _spec_nodes(cfg["spec"])
     D = cfg["depth"]
     out = []
@@ -823,8 +827,9 @@ def _img_highlights(seed, cfg, n, all_styles):
                     pt = [hrng.randint(0, e + 2) for e in cfg["ext"][:hrng.randint(1, D)]]
                 pts.append(pt)
             workers.append([w, pts])
-        out.append({"form": form, "styles": list(STYLES) if all_styles else [hrng.choice(STYLES + STYLES[:2])], "w": workers})
-    return out
+        out.append({"form": form, "w": workers})
+    # the combined style costs as much as the two others together: drawn less often
+    return {"styles": list(STYLES) if all_styles else [hrng.choice(STYLES + STYLES[:2])], "confs": out}
 
 
 def _hl_arg(conf):
@@ -1558,64 +1563,51 @@ def _run_img(case, mon):
         mon.check(now == before, f"img:{st}:modified:{diffkind(before, now) if now != before else ''}:fiber",
                   "rendering the root fiber changed the tensor")
         before = now
-    # the same tensor rendered with highlights (worker -> points): twice with equal arguments, back to back, and
-    # once more after the other configurations have been rendered
-    confs = case.get("hl") or []
-    first = None
-    hl_done = 0
+    # the same tensor rendered with highlights (worker -> points): the first configuration twice with equal
+    # arguments - back to back, or with one rendering of another configuration in between
+    hl = case.get("hl") or {"styles": [], "confs": []}
+    confs = hl["confs"]
     for conf in confs:
-        what = f"form={conf['form']} highlights={conf['w']}"
         for w, pts in conf["w"]:
             mon.count(f"img_hl_workers[{_worker_kind(w)}]")
             for pt in pts:
                 mon.count(f"img_hl_points[{_point_class(cfg['spec'], pt)}]")
         mon.count(f"img_hl_form[{conf['form']}]")
-        ok = True
-        for style in conf.get("styles") or STYLES:
-            ims = []
-            for k in range(2):
-                try:
-                    ims.append(_render(T, style, conf))
-                    mon.count("img_hl_renders")
-                except BaseException as e:      # noqa
-                    mon.violation(f"img:{style}:raised:{type(e).__name__}:highlighted",
-                                  f"TensorImage(style={style}, {what}) raised {type(e).__name__}: {e} on tree={cfg['spec']} "
-                                  f"shape={cfg.get('shape')}")
-                now = xsnap(T)
-                same = now == before
-                mon.check(same, f"img:{style}:modified:{diffkind(before, now) if not same else ''}:highlighted",
-                          f"rendering style {style} with {what} changed the tensor "
-                          f"({diffkind(before, now) if not same else ''}); tree={cfg['spec']} shape={cfg.get('shape')}")
-                if not same:
-                    before = now
-            if len(ims) < 2:
-                ok = False
-                continue
-            mon.count("img_hl_pairs_compared")
-            mon.check(ims[0] == ims[1], f"img:{style}:nondeterministic:highlighted",
-                      f"two renderings (style {style}, {what}) of the same tensor with the same highlights differ; "
-                      f"tree={cfg['spec']} shape={cfg.get('shape')}")
-            if style in plain and ims[0] != plain[style]:
+    hl_done = 0
+    inter = ":interleaved" if len(confs) > 1 else ""
+    for style in hl["styles"] if confs else []:
+        ims = []
+        for conf in [confs[0]] + confs[1:] + [confs[0]]:
+            what = f"form={conf['form']} highlights={conf['w']}"
+            im = None
+            try:
+                im = _render(T, style, conf)
+                mon.count("img_hl_renders")
+            except BaseException as e:      # noqa
+                mon.violation(f"img:{style}:raised:{type(e).__name__}:highlighted",
+                              f"TensorImage(style={style}, {what}) raised {type(e).__name__}: {e} on tree={cfg['spec']} "
+                              f"shape={cfg.get('shape')}")
+            ims.append(im)
+            now = xsnap(T)
+            same = now == before
+            mon.check(same, f"img:{style}:modified:{diffkind(before, now) if not same else ''}:highlighted",
+                      f"rendering style {style} with {what} changed the tensor "
+                      f"({diffkind(before, now) if not same else ''}); tree={cfg['spec']} shape={cfg.get('shape')}")
+            if not same:
+                before = now
+            if im is not None and style in plain and im != plain[style]:
                 mon.count("img_hl_visible")             # the highlights coloured something
-            if first is None:
-                first = (conf, style, ims[0], what)
-        hl_done += ok
-    if first is not None and len(confs) > 1:
-        conf, style, im0, what = first
-        try:
-            again = _render(T, style, conf)
-            mon.count("img_hl_renders")
-            mon.count("img_hl_interleaved_compared")
-            mon.check(again == im0, f"img:{style}:nondeterministic:highlighted:interleaved",
-                      f"rendering (style {style}, {what}) again after renderings with other highlights gives a different "
-                      f"image; tree={cfg['spec']} shape={cfg.get('shape')}")
-        except BaseException as e:      # noqa
-            mon.violation(f"img:{style}:raised:{type(e).__name__}:highlighted",
-                          f"TensorImage(style={style}, {what}) raised {type(e).__name__}: {e}")
-        now = xsnap(T)
-        mon.check(now == before, f"img:{style}:modified:{diffkind(before, now) if now != before else ''}:highlighted",
-                  f"rendering style {style} with {what} changed the tensor")
-    if done == 3 and hl_done == len(confs) and leaf_paths(F):
+        if any(im is None for im in ims):
+            continue
+        hl_done += 1
+        mon.count("img_hl_pairs_compared")
+        mon.count("img_hl_pairs_compared" + (":interleaved" if inter else ":back-to-back"))
+        what = f"form={confs[0]['form']} highlights={confs[0]['w']}"
+        mon.check(ims[0] == ims[-1], f"img:{style}:nondeterministic:highlighted{inter}",
+                  f"two renderings (style {style}, {what}) of the same tensor with equal highlights"
+                  + (f", {len(confs) - 1} rendering(s) with other highlights in between," if inter else "")
+                  + f" differ; tree={cfg['spec']} shape={cfg.get('shape')}")
+    if done == 3 and hl_done == len(hl["styles"]) and leaf_paths(F):
         mon.nontrivial()
     mon.state(("img", cfg["depth"], cfg["flavour"], bool(cfg.get("shape")), has_empty_fiber(F)))
     for conf in confs:
